@@ -33,7 +33,7 @@ Definition lst_init (start_of_line : bool) : lst :=
 (* One step of the closure: the token produced, the new state, the remaining input.
    Defined for a non-empty input c :: r.  The arms are in source order. *)
 Definition lex_step (st : lst) (c : char) (r : str) : res (token * lst * str) :=
-  if (c =? 58)%N && negb (colon st) then
+  if (c =? 58)%N && negb (colon st) && negb (ind st) then
     Ok ((COLON, [c]), mk_lst (sol st) true (ind st), r)
   else if is_newline c then
     Ok ((NEWLINE, [c]), mk_lst true false false, r)
